@@ -53,6 +53,11 @@ ASSUMPTIONS = [
     "random.Random(rseed)); a tuple near a legal index is legal or not according to the definition of the kind (block: "
     "1..range per position; combinations: strictly increasing in 1..n; with replacement: non-decreasing; permutations: "
     "pairwise distinct; words: any), bool entries are not offered",
+    "astronomically large groups: only new_block, new_mapping with a domain of at most 64 elements and new_binary_mapping "
+    "with a range of at most 1024 elements are used (their constructors store ranges and weights; the other kinds tabulate "
+    "every index); a group has at most 2^63 - 1 variables because len() of a Python object cannot say more (the constructors "
+    "call len()), larger identifiers come from the variables declared before the group; patterns whose answer would copy a "
+    "range of 2^31 elements are not asked",
     "command line: the names of php, op, ram, cliquecoloring, vdw, bphp, kcolor, peb, tseitin are computed by the "
     "harness from the documented naming of the families; for random graphs only the order of the decoded edges is "
     "asserted, together with equality with the names of the formula built through cli(mode='formula')",
@@ -1285,6 +1290,505 @@ def _scale_strategy(draw):
 
 
 # ---------------------------------------------------------------------------
+# astronomically large groups: identifiers beyond 2**53 and 2**64
+#
+#   {"huge": true, "cls": "CNF", "pre": 1152921504606846976, "pre_how": "update",
+#    "stack": [{"kind": "block", "ranges": [2147483648, 2147483648], "label": "a({},{})"},
+#              {"kind": "mapping", "n": 3, "m": 2305843009213693952, "label": "b({})={}"},
+#              {"kind": "binary_mapping", "n": 1152921504606846976, "m": 8, "label": "c({},{})"}],
+#    "gaps": [0, 5, 9007199254740992], "names_head": false, "rseed": 7}
+#
+# Only the constructors that store ranges and weights are used (new_block; new_mapping with a
+# small domain, whose complete bipartite graph answers with ranges; new_binary_mapping with a
+# small range, because it tabulates the 2^bits sign patterns): creating such a group costs
+# nothing, whatever its size.  Nothing is enumerated.  The reference is the mixed-radix number
+# system in Python integers: position p of the group <-> digits by repeated divmod, identifier
+# = first + p.  A group has fewer than 2**63 variables (len() of a Python object); the
+# identifiers are pushed beyond 2**64 by what comes before the group.
+
+HUGE_KINDS = ('block', 'mapping', 'binary_mapping')
+_MAXLEN = 2 ** 63 - 1
+_MARKS = (26, 32, 53, 63, 64)
+
+
+def _is_int(x):
+    return isinstance(x, int) and not isinstance(x, bool)
+
+
+class HugeRef:
+    """Mixed-radix reference of one lazily stored group (no enumeration, no floats)."""
+
+    def __init__(self, spec):
+        self.spec = spec
+        self.kind = spec['kind']
+        self.label = spec['label']
+        if self.kind == 'block':
+            self.radices = list(spec['ranges'])
+        elif self.kind == 'mapping':
+            self.radices = [spec['n'], spec['m']]
+        elif self.kind == 'binary_mapping':
+            self.bits = gr.bits_for(spec['m'])
+            self.radices = [spec['n'], self.bits]
+        else:
+            raise ValueError(self.kind)
+        N = 1
+        for r in self.radices:
+            N *= r
+        self.N = N
+        if N > _MAXLEN:
+            raise ValueError("group with more than 2**63 - 1 variables: outside the generated domain")
+
+    def describe(self):
+        s = self.spec
+        if self.kind == 'block':
+            a = ','.join(map(str, s['ranges']))
+        else:
+            a = "{},{}".format(s['n'], s['m'])
+        return "new_{}({},label={!r})".format(self.kind, a, self.label)
+
+    def create(self, F):
+        s = self.spec
+        if self.kind == 'block':
+            return F.new_block(*s['ranges'], label=self.label)
+        if self.kind == 'mapping':
+            return F.new_mapping(s['n'], s['m'], label=self.label)
+        return F.new_binary_mapping(s['n'], s['m'], label=self.label)
+
+    # digits <-> index: every entry of an index counts from 1, except the bit position of a binary
+    # mapping, which counts down from bits-1 to 0
+    def _index(self, digits):
+        if self.kind == 'binary_mapping':
+            return (digits[0] + 1, self.bits - 1 - digits[1])
+        return tuple(d + 1 for d in digits)
+
+    def _digits(self, idx):
+        if self.kind == 'binary_mapping':
+            return [idx[0] - 1, self.bits - 1 - idx[1]]
+        return [x - 1 for x in idx]
+
+    def index_at(self, p):
+        """Index of the p-th variable of the group (p from 0): repeated divmod, last position first."""
+        if not (0 <= p < self.N):
+            raise ValueError("position outside the group")
+        digits = []
+        for r in reversed(self.radices):
+            p, d = divmod(p, r)
+            digits.append(d)
+        digits.reverse()
+        return self._index(digits)
+
+    def position_of(self, idx):
+        """The mixed-radix number spelled by a legal index (Horner)."""
+        p = 0
+        for d, r in zip(self._digits(idx), self.radices):
+            p = p * r + d
+        return p
+
+    def legal(self, t):
+        if len(t) != len(self.radices) or not all(_is_int(x) for x in t):
+            return False
+        return all(0 <= d < r for d, r in zip(self._digits(t), self.radices))
+
+    def bounds(self, j):
+        """Smallest and largest legal entry in position j of an index."""
+        if self.kind == 'binary_mapping' and j == 1:
+            return 0, self.bits - 1
+        return 1, self.radices[j]
+
+    def label_of(self, idx):
+        return self.label.format(*idx)
+
+
+def huge_positions(ref, first, rng):
+    """Positions (from 0) of the group to be questioned: both ends, the middle, the neighbourhood of every
+    multiple of 2**26, 2**32, 2**53, 2**63, 2**64 that a position or an identifier can be near to, the places
+    where a digit of the mixed-radix number wraps around, indices made of extreme digits, random ones."""
+    N = ref.N
+    if N <= 200:
+        return list(range(N))
+    P = set()
+
+    def near(p, radius=1):
+        for q in range(p - radius, p + radius + 1):
+            if 0 <= q < N:
+                P.add(q)
+
+    near(0, 2)
+    near(N - 1, 2)
+    near(N // 2, 2)
+    for e in _MARKS:
+        M = 1 << e
+        if N > M:                                   # the position is a multiple of M
+            top = (N - 1) // M
+            for q in set([1, top, rng.randint(1, top), rng.randint(1, top)]):
+                near(q * M)
+        lo, hi = -(-first // M), (first + N - 1) // M     # the identifier is a multiple of M
+        if lo <= hi:
+            for q in set([lo, hi, rng.randint(lo, hi)]):
+                near(q * M - first)
+    w = 1
+    for r in reversed(ref.radices[1:]):             # a digit wraps around: multiples of the weights
+        w *= r
+        top = N // w
+        for q in set([1, top, top // 2, rng.randint(1, top), rng.randint(1, top)]):
+            near(q * w)
+    for _ in range(12):                             # extreme digits
+        idx = []
+        for j in range(len(ref.radices)):
+            lo, hi = ref.bounds(j)
+            idx.append(rng.choice([lo, hi, rng.randint(lo, hi), min(hi, lo + 1), max(lo, hi - 1)]))
+        P.add(ref.position_of(tuple(idx)))
+    for _ in range(12):
+        P.add(rng.randrange(N))
+    return sorted(P)
+
+
+def _refuse_lazily(what, thunk):
+    """thunk() must raise ValueError; of a lazy answer only the first items are taken (the whole answer may have
+    2**60 items)."""
+    try:
+        got = thunk()
+        if not (got is None or isinstance(got, (int, str))):
+            got = list(itertools.islice(got, 3))
+    except ValueError:
+        return
+    raise Violation("{} is outside the index domain but was answered with {!r}... instead of ValueError".format(what, got))
+
+
+def _huge_neighbours(ref, idx):
+    k = len(idx)
+    out = []
+    for j in range(k):
+        lo, hi = ref.bounds(j)
+        for how, val in (('below', lo - 1), ('above', hi + 1), ('negated', -idx[j]), ('far-above', hi + (1 << 64)),
+                         ('plus-one', idx[j] + 1), ('minus-one', idx[j] - 1), ('lowest', lo), ('highest', hi)):
+            t = list(idx)
+            t[j] = val
+            out.append((how, tuple(t)))
+    out.append(('shorter', idx[:-1]))
+    out.append(('longer', idx + idx[-1:]))
+    if k >= 2:
+        out.append(('rotated', idx[1:] + idx[:1]))
+    return [(how, t) for how, t in out if t != idx and len(t) > 0]
+
+
+def _huge_patterns(ref, idx, rng):
+    """Patterns with None whose answer is short, or whose first items are cheap: [(pattern, expected indices,
+    complete?)], by construction from the definition of the kind."""
+    out = []
+    if ref.kind == 'block':
+        cand = [j for j, r in enumerate(ref.radices) if r <= 48]
+        rng.shuffle(cand)
+        free, total = [], 1
+        for j in cand[:rng.randint(1, 3)]:
+            if total * ref.radices[j] <= 2000:
+                free.append(j)
+                total *= ref.radices[j]
+        free.sort()
+        if free:
+            pat = [None if j in free else x for j, x in enumerate(idx)]
+            want = []
+            for choice in itertools.product(*[range(1, ref.radices[j] + 1) for j in free]):
+                t = list(idx)
+                for j, x in zip(free, choice):
+                    t[j] = x
+                want.append(tuple(t))
+            out.append((tuple(pat), want, True))
+        return out
+    n, second = ref.radices
+    i, x = idx
+    lo, hi = ref.bounds(1)
+    if ref.kind == 'mapping':
+        row = [(i, j) for j in range(1, min(second, 5) + 1)]
+        col = [(u, x) for u in range(1, min(n, 5) + 1)]
+    else:
+        row = [(i, b) for b in range(hi, max(lo, hi - 4) - 1, -1)]
+        col = [(u, x) for u in range(1, min(n, 5) + 1)]
+    out.append(((i, None), row, second <= 5))
+    out.append(((None, x), col, n <= 5))
+    return out
+
+
+def check_huge_group(F, g, ref, first, rng, where, others=(), deep=True):
+    seen = set()
+    N = ref.N
+    head = "{} ({}, identifiers {}..{})".format(ref.describe(), where, first, first + N - 1)
+    if len(g) != N:
+        raise Violation("{}: len() is {}, the product of the ranges is {}".format(head, len(g), N))
+    if N:
+        ends = (g[0], g[-1])
+        if ends != (first, first + N - 1) or not all(_is_int(v) for v in ends):
+            raise Violation("{}: first and last identifier {!r}, expected {}".format(head, ends, (first, first + N - 1)))
+    positions = huge_positions(ref, first, rng)
+    for p in positions:
+        idx = ref.index_at(p)
+        if ref.position_of(idx) != p or not ref.legal(idx):
+            raise RuntimeError("harness: reference arithmetic is inconsistent at {} of {}".format(p, ref.spec))
+        v = first + p
+        got = g(*idx)
+        if not _is_int(got) or got != v:
+            raise Violation("{}: index {} -> identifier {!r}, expected {} = {} + its mixed-radix number {}".format(
+                head, idx, got, v, first, p))
+        for lit in (v, -v):
+            back = tuple(g.to_index(lit))
+            if back != idx or not all(_is_int(x) for x in back):
+                raise Violation("{}: to_index({}) = {!r} but {} is the identifier of index {} (position {} = divmod "
+                                "by the ranges)".format(head, lit, back, v, idx, p))
+            if lit not in g:
+                raise Violation("{}: `{} in group` is False for an identifier of the group".format(head, lit))
+        one = [tuple(t) for t in g.indices(*idx)]
+        if one != [idx]:
+            raise Violation("{}: indices{} = {} instead of the index itself".format(head, idx, one))
+        lab = g.label(*idx)
+        if lab != ref.label_of(idx):
+            raise Violation("{}: label{} = {!r}, the label format gives {!r}".format(head, idx, lab, ref.label_of(idx)))
+    if positions:
+        seen.add('huge-sampled')
+    # identifiers around the group and those of the other groups
+    for v in [first - 1, first + N, first + N + (1 << 53)] + list(others):
+        if v < 1 or first <= v < first + N:
+            continue
+        for lit in (v, -v):
+            if lit in g:
+                raise Violation("{}: `{} in group` is True for an identifier outside the group".format(head, lit))
+            gr.must_refuse("{}: to_index({})".format(head, lit), lambda: g.to_index(lit))
+    gr.must_refuse("{}: to_index(0)".format(head), lambda: g.to_index(0))
+    if not deep or not positions:
+        return seen
+    centres = [positions[0], positions[-1]] + [rng.choice(positions) for _ in range(6)]
+    for p in centres:
+        idx = ref.index_at(p)
+        for how, t in _huge_neighbours(ref, idx):
+            if ref.legal(t):
+                q = ref.position_of(t)
+                got = g(*t)
+                if not _is_int(got) or got != first + q:
+                    raise Violation("{}: index {} ({} from {}) -> identifier {!r}, expected {}".format(
+                        head, t, how, idx, got, first + q))
+                back = tuple(g.to_index(-got))
+                if back != t:
+                    raise Violation("{}: to_index({}) = {!r} but {} is the identifier of index {}".format(
+                        head, -got, back, got, t))
+            else:
+                what = " with {} ({} from the index {})".format(t, how, idx)
+                _refuse_lazily(head + ": the call" + what, lambda: g(*t))
+                _refuse_lazily(head + ": indices()" + what, lambda: g.indices(*t))
+                _refuse_lazily(head + ": label()" + what, lambda: g.label(*t))
+                seen.add('huge-refused-index')
+        for pat, want, complete in _huge_patterns(ref, idx, rng):
+            take = None if complete else len(want)
+            want_ids = [first + ref.position_of(t) for t in want]
+            got_ids = list(itertools.islice(g(*pat), take))
+            if got_ids != want_ids or not all(_is_int(x) for x in got_ids):
+                raise Violation("{}: pattern {} selects the identifiers {}{}; the matching indices in order are {} = {}".format(
+                    head, pat, got_ids[:8], '' if complete else ' first', want[:8], want_ids[:8]))
+            got_i = [tuple(t) for t in itertools.islice(g.indices(*pat), take)]
+            if got_i != want:
+                raise Violation("{}: indices{} gives {}{}; expected {}".format(
+                    head, pat, got_i[:8], '' if complete else ' first', want[:8]))
+            got_l = list(itertools.islice(g.label(*pat), take))
+            if got_l != [ref.label_of(t) for t in want]:
+                raise Violation("{}: label{} = {}; expected {}".format(head, pat, got_l[:8],
+                                                                      [ref.label_of(t) for t in want[:8]]))
+            seen.add('huge-wildcard')
+            if not complete:
+                seen.add('huge-wildcard-lazy-answer')
+        if ref.kind != 'block':
+            lo, hi = ref.bounds(1)
+            for pat in ((0, None), (ref.radices[0] + 1, None), (None, lo - 1), (None, hi + 1)):
+                _refuse_lazily("{}: pattern {} through the call".format(head, pat), lambda: g(*pat))
+                _refuse_lazily("{}: indices{}".format(head, pat), lambda: g.indices(*pat))
+            seen.add('huge-wildcard-out-of-range')
+    return seen
+
+
+def run_huge(case):
+    clsname = case['cls']
+    rng = random.Random(case['rseed'])
+    F = _mk(clsname)
+    nv = 0
+    pre = case.get('pre', 0)
+    if pre:
+        if case.get('pre_how') == 'clause':
+            F.add_clause([-pre])
+        else:
+            F.update_variable_number(pre)
+        nv = pre
+    labels = set([clsname, 'huge'])
+    recs = []
+    gaps = list(case.get('gaps', []))
+    for depth, spec in enumerate(case['stack']):
+        ref = HugeRef(spec)
+        where = "{} with {} variables before".format(clsname, nv)
+        g = ref.create(F)
+        first = nv + 1
+        nv += ref.N
+        if F.number_of_variables() != nv or not _is_int(F.number_of_variables()):
+            raise Violation("{}: after {} the formula has {!r} variables, expected {}".format(
+                where, ref.describe(), F.number_of_variables(), nv))
+        recs.append((ref, g, first))
+        labels |= check_huge_group(F, g, ref, first, rng, where, others=[r[2] for r in recs[:-1]] + [1, pre])
+        labels.add('huge-' + ref.kind)
+        if ref.N == 0:
+            labels.add('huge-empty-group')
+        else:
+            last = first + ref.N - 1
+            for e in _MARKS:
+                if ref.N > (1 << e):
+                    labels.add('group-larger-than-2^{}'.format(e))
+                if last > (1 << e):
+                    labels.add('identifiers-above-2^{}'.format(e))
+                if first <= (1 << e) <= last and e >= 53:
+                    labels.add('group-across-2^{}'.format(e))
+            if ref.N <= 200 and first > (1 << 53):
+                labels.add('small-group-at-huge-offset')
+        gap = gaps[depth] if depth < len(gaps) else 0
+        if gap:
+            F.update_variable_number(nv + gap)
+            nv += gap
+            labels.add('huge-gap')
+    if len(recs) >= 2:
+        labels.add('huge-stacked')
+        firsts = [r[2] for r in recs] + [nv, nv + 1]
+        for ref, g, first in recs:
+            labels |= check_huge_group(F, g, ref, first, rng, "at the end of the stack", others=firsts, deep=False)
+    if F.number_of_variables() != nv:
+        raise Violation("{} stack of huge groups: {} variables at the end, expected {}".format(
+            clsname, F.number_of_variables(), nv))
+    if case.get('names_head') and recs:
+        # the names are produced lazily: the first ones are the default names of the variables before the first
+        # group, then the labels of its first indices
+        ref, g, first = recs[0]
+        take = min(first - 1 + 6, nv)
+        names = list(itertools.islice(F.all_variable_labels(), take))
+        want = ['x{}'.format(v) for v in range(1, first)]
+        for p in range(min(6, ref.N)):
+            want.append(ref.label_of(ref.index_at(p)))
+        want = want[:take]
+        if names[:len(want)] != want:
+            raise Violation("{} stack of huge groups starting with {}: the first names are {}, expected {}".format(
+                clsname, ref.describe(), names[:len(want)], want))
+        labels.add('huge-names-head')
+    return Outcome(labels=sorted(labels), nontrivial=nv > (1 << 53))
+
+
+def run_scale_any(case):
+    if case.get('huge'):
+        return run_huge(case)
+    return run_scale(case)
+
+
+_HUGE_BLOCKS = [[2 ** 31, 2 ** 31], [10 ** 6, 10 ** 6, 10 ** 6], [2 ** 32 - 1, 2 ** 31 - 1], [2 ** 53 + 1], [2 ** 62],
+                [3, 2 ** 60], [2 ** 60, 3], [2 ** 20, 3, 2 ** 21], [2 ** 26 + 1, 2 ** 27 - 1], [7, 11, 13, 2 ** 50],
+                [2] * 62, [10] * 18, [2 ** 53 - 1, 2, 2], [94906267, 94906267], [3, 4], [1, 1, 5], [2 ** 40, 0, 5],
+                [2 ** 61 - 1, 4], [5, 2 ** 27, 3, 2 ** 27, 2], [2 ** 16] * 3 + [32767], [3037000499, 3037000499],
+                [6, 2 ** 53 + 3, 5], [2 ** 32, 2 ** 21 + 1, 17]]
+_HUGE_MAPPINGS = [[2, 2 ** 40], [3, 2 ** 61], [64, 2 ** 55], [1, 2 ** 62], [5, 10 ** 15], [7, 2 ** 53 + 1], [40, 3]]
+_HUGE_BINARY = [[2 ** 60, 8], [2 ** 53 + 1, 2], [2 ** 58, 9], [2 ** 52 + 7, 1024], [2 ** 60, 1], [10 ** 17, 5],
+                [3 * 2 ** 60, 3], [2 ** 62, 0], [5, 300]]
+_HUGE_PRE = [0, 2 ** 60, 5, 2 ** 53 - 4, 2 ** 64 + 5, 1, 2 ** 63 - 3, 2 ** 32, 2 ** 53, 2 ** 64 - 2, 10 ** 30, 2 ** 26 - 1]
+_HUGE_GAPS = [0, 1, 2 ** 53, 0, 5, 2 ** 64]
+
+
+def _huge_spec(kind, shape, tag, j):
+    if kind == 'block':
+        styles = [s for s in label_styles('block', tag, len(shape)) if s is not None]
+        return {'kind': 'block', 'ranges': list(shape), 'label': styles[j % len(styles)]}
+    styles = [s for s in label_styles(kind, tag) if s is not None]
+    return {'kind': kind, 'n': shape[0], 'm': shape[1], 'label': styles[j % len(styles)]}
+
+
+def _names_head_ok(spec, pre):
+    """Can the first names be asked for?  (the variables before the group are named one by one, and the whole-group
+    views of a block copy every range)"""
+    if pre > 8:
+        return False
+    return spec['kind'] != 'block' or max(spec['ranges']) <= 65536
+
+
+def _huge_shapes():
+    return ([('block', s) for s in _HUGE_BLOCKS] + [('mapping', s) for s in _HUGE_MAPPINGS] +
+            [('binary_mapping', s) for s in _HUGE_BINARY])
+
+
+def enum_huge(tier):
+    shapes = _huge_shapes()
+    j = 0
+    per_shape = 3 if tier == 'quick' else len(_HUGE_PRE)
+    for si, (kind, shape) in enumerate(shapes):
+        for r in range(per_shape):
+            j += 1
+            pre = _HUGE_PRE[(si + r * 5) % len(_HUGE_PRE)] if tier == 'quick' else _HUGE_PRE[r]
+            spec = _huge_spec(kind, shape, 'g', j)
+            yield {'huge': True, 'cls': ['CNF', 'OPB'][j % 2], 'pre': pre, 'pre_how': ['update', 'clause'][(j // 2) % 2],
+                   'stack': [spec], 'gaps': [_HUGE_GAPS[j % len(_HUGE_GAPS)]], 'names_head': _names_head_ok(spec, pre),
+                   'rseed': 3000 + j}
+    # stacks: every ordered pair (thorough: and some triples) of a few shapes of the three kinds
+    core = [('block', [2 ** 31, 2 ** 31]), ('block', [2 ** 20, 3, 2 ** 21]), ('mapping', [3, 2 ** 61]),
+            ('binary_mapping', [2 ** 60, 8]), ('block', [3, 4]), ('block', [2 ** 53 + 1]), ('mapping', [64, 2 ** 55])]
+    if tier != 'quick':
+        core = core + [('block', [10 ** 6] * 3), ('binary_mapping', [2 ** 52 + 7, 1024]), ('block', [2 ** 62])]
+    stacks = [[a, b] for a in core for b in core]
+    step = 5 if tier == 'quick' else 1
+    stacks += [[a, b, c] for a in core for b in core for c in core][::7 * step]
+    for stack in stacks:
+        j += 1
+        pre = [2 ** 60, 0, 3, 2 ** 64 - 1, 2 ** 53 - 2][j % 5]
+        specs = [_huge_spec(kind, shape, 'abc'[d], j + d) for d, (kind, shape) in enumerate(stack)]
+        yield {'huge': True, 'cls': ['CNF', 'OPB'][j % 2], 'pre': pre, 'pre_how': ['update', 'clause'][(j // 2) % 2],
+               'stack': specs, 'gaps': [_HUGE_GAPS[(j + d) % len(_HUGE_GAPS)] for d in range(len(specs))],
+               'names_head': _names_head_ok(specs[0], pre), 'rseed': 4000 + j}
+
+
+def enum_scale_and_huge(tier):
+    for case in enum_huge(tier):
+        yield case
+    for case in enum_scale(tier):
+        yield case
+
+
+_HUGE_RADICES = [1, 2, 3, 5, 7, 10, 48, 1000, 2 ** 16, 10 ** 6, 2 ** 26 - 1, 2 ** 26, 2 ** 26 + 1, 2 ** 31, 2 ** 32 - 1,
+                 2 ** 32, 2 ** 32 + 1, 10 ** 12, 2 ** 53 - 1, 2 ** 53, 2 ** 53 + 1, 2 ** 60, 2 ** 62]
+_BIG = st.integers(0, 2 ** 70)
+
+
+@st.composite
+def _huge_strategy(draw):
+    depth = 1 + draw(_INT) % 3
+    stack = []
+    for d in range(depth):
+        kind = _pick(draw, ['block', 'block', 'block', 'mapping', 'binary_mapping'])
+        if kind == 'block':
+            room = _MAXLEN
+            rs = []
+            for _ in range(1 + draw(_INT) % 5):
+                r = _pick(draw, _HUGE_RADICES) if draw(_BOOL) else 1 + draw(_BIG) % (1 << (1 + draw(_INT) % 62))
+                r = max(1, min(r, room))
+                room //= r
+                rs.append(r)
+            if draw(_INT) % 30 == 0:
+                rs[draw(_INT) % len(rs)] = 0
+            shape = rs
+        elif kind == 'mapping':
+            n = 1 + draw(_INT) % 64
+            shape = [n, 1 + draw(_BIG) % (_MAXLEN // n)]
+        else:
+            m = draw(_INT) % 1025
+            bits = max(1, gr.bits_for(m))
+            shape = [1 + draw(_BIG) % (_MAXLEN // bits), m]
+        stack.append(_huge_spec(kind, shape, 'abc'[d], draw(_INT)))
+    pre = _pick(draw, _HUGE_PRE) if draw(_BOOL) else draw(_BIG)
+    return {'huge': True, 'cls': _pick(draw, ['CNF', 'OPB']), 'pre': pre,
+            'pre_how': _pick(draw, ['update', 'clause']), 'stack': stack,
+            'gaps': [_pick(draw, _HUGE_GAPS) for _ in stack], 'names_head': _names_head_ok(stack[0], pre),
+            'rseed': draw(_INT)}
+
+
+def _scale_and_huge_strategy():
+    return st.one_of(_scale_strategy(), _huge_strategy(), _huge_strategy(), _huge_strategy())
+
+
+# ---------------------------------------------------------------------------
 
 _COMMON = ("oracle: identifiers are the next contiguous range; indices() equals the reference enumeration (itertools / "
            "sorted edge lists) in identifier order; g(*i) and to_index(+-g(*i)) are inverse on every index; every pattern "
@@ -1293,6 +1797,33 @@ _COMMON = ("oracle: identifiers are the next contiguous range; indices() equals 
            "the group raise ValueError; all_variable_labels() gives the group's label for every identifier of a group and "
            "the default name ('x{}' or the requested format) elsewhere; 'c varname'/'* varname' lines and the LaTeX literal "
            "table say the same. ")
+
+_HUGE_RULE = ("(a) astronomically large groups, never enumerated: new_block with 1..62 ranges (2^31 x 2^31, 10^6 x 10^6 x 10^6, "
+              "one range of 2^53+1 or 2^62, 3 x 2^60, 2^60 x 3, 62 ranges of 2, 18 ranges of 10, squares around 2^53 and 2^63, a "
+              "range 0 next to a range 2^40, ...; Hypothesis: 1..5 ranges from a pool of values around 2^16, 2^26, 2^32, 2^53, "
+              "2^60 or of random bit length), new_mapping(n <= 64, m up to 2^62) and new_binary_mapping(n up to 2^62, m <= 1024) "
+              "- the constructors that store ranges and weights only; every group has fewer than 2^63 variables (len() of a "
+              "Python object), created after 0, 1, 5, 2^26-1, 2^32, 2^53-4, 2^53, 2^60, 2^63-3, 2^64-2, 2^64+5 or 10^30 "
+              "(Hypothesis: any number below 2^70) anonymous variables declared by update_variable_number or by a clause, CNF "
+              "and OPB, alone and in stacks of 2..3 groups of the three kinds with 0, 1, 5, 2^53 or 2^64 anonymous variables in "
+              "between. oracle, in Python integers only: len = product of the ranges, first and last identifier, "
+              "number_of_variables(); on sampled positions p (both ends, the middle, +-1 around multiples of 2^26, 2^32, 2^53, "
+              "2^63, 2^64 of the position and of the identifier, +-1 around multiples of every weight of the mixed-radix system, "
+              "indices made of extreme digits, random positions; every position when the group has <= 200 variables): the index "
+              "is the digits of p by repeated divmod, g(index) = first + p as an int, to_index(+-identifier) = index with int "
+              "entries, membership, indices(index), label(index) = format of the same index; neighbouring tuples (entry below / "
+              "above its range, negated, + 2^64, +-1, lowest, highest, one entry more or less, rotated) map to their own "
+              "mixed-radix number when legal and raise ValueError from g(...), indices(...), label(...) otherwise; patterns with "
+              "None whose answer is short (free positions with ranges <= 48; a row or a column of a mapping) against the "
+              "harness product, lazily answered patterns on their first 5 items; out-of-range patterns refused; identifiers "
+              "just outside, 2^53 further, and those of the other groups refused by to_index and `in`; every group again at the "
+              "end of the stack; when at most 8 variables precede, the first names of all_variable_labels() taken lazily. "
+              "(b) ")
+_HUGE_LABELS = ['huge', 'huge-block', 'huge-mapping', 'huge-binary_mapping', 'huge-stacked', 'huge-gap', 'huge-sampled',
+                'huge-wildcard', 'huge-wildcard-lazy-answer', 'huge-wildcard-out-of-range', 'huge-refused-index',
+                'huge-empty-group', 'huge-names-head', 'small-group-at-huge-offset', 'group-larger-than-2^53',
+                'group-larger-than-2^32', 'identifiers-above-2^53', 'identifiers-above-2^63', 'identifiers-above-2^64',
+                'group-across-2^53', 'group-across-2^64']
 
 SUBCHECKS = [
     SubCheck('variable', run_group, strategy=_direct_strategy(['variable']), enumerate_cases=enum_variable(True),
@@ -1353,9 +1884,9 @@ SUBCHECKS = [
              required_labels=list(gr.MAP_KINDS) + ['empty-group', 'named-after-anonymous', 'wildcard',
                                                    'wildcard-proper-subset', 'refused-index', 'rejected-creation',
                                                    'gap-between-groups', 'rendered']),
-    SubCheck('scale', run_scale, strategy=lambda: _scale_strategy(), enumerate_cases=enum_scale,
-             quick=12, thorough=300,
-             rule="groups with more than 10^4 variables: new_combinations(30,4), new_permutations(25,3), new_words(5,6), "
+    SubCheck('scale', run_scale_any, strategy=_scale_and_huge_strategy, enumerate_cases=enum_scale_and_huge,
+             quick=48, thorough=1200,
+             rule=_HUGE_RULE + "groups with more than 10^4 variables: new_combinations(30,4), new_permutations(25,3), new_words(5,6), "
                   "new_combinations_with_replacement(22,4), new_block(40,50,6), new_block(101,100), four groups on ground sets "
                   "of 256..300 elements with k=2 (up to 66000 variables), every sixth (thorough: "
                   "every) word group with 10^4 < size <= 3*10^4 (thorough 1.1*10^5) for k in {2,3,4,5,6,8,14}, "
@@ -1372,13 +1903,14 @@ SUBCHECKS = [
                   "blocks: three wildcard patterns against the filtered enumeration, out-of-range wildcard patterns refused; "
                   "every group is sampled again after the later groups and must refuse the identifiers of the others; "
                   "all_variable_labels() has one name per variable, compared at sampled positions and on every anonymous "
-                  "variable. Non-trivial: always (every case has a group with more than 10^4 variables).",
+                  "variable. Non-trivial: (a) the identifiers go beyond 2^53; (b) always (every case has a group with more than "
+                  "10^4 variables).",
              required_labels=['CNF', 'OPB', 'block'] + list(gr.WORD_KINDS) +
                              ['more-than-10^4', 'offset-above-10^4', 'stacked', 'sampled-windows', 'legal-neighbour',
                               'refused-index', 'refused-swapped', 'refused-repeated', 'refused-zero-leading',
                               'refused-zero-non-leading', 'refused-top+1-leading', 'refused-top+1-non-leading',
                               'refused-negative', 'refused-shorter', 'refused-longer', 'refused-reversed', 'wildcard',
-                              'wildcard-out-of-range', 'anonymous-around']),
+                              'wildcard-out-of-range', 'anonymous-around'] + _HUGE_LABELS),
     SubCheck('history_cnf', run_history, strategy=_history_strategy('CNF'), enumerate_cases=enum_history('CNF'),
              quick=1500, thorough=20000,
              rule="CNF: operation logs of 0..14 (thorough 0..30) steps interleaving creation of groups of every kind "
